@@ -1122,7 +1122,12 @@ func (r *rig) run(goal func(r *rig) bool) {
 		if goal != nil && r.stopped == "" && !r.conf.OneShot && (nEv != lastEv || r.now()-lastGoal > time.Minute) {
 			lastEv, lastGoal = nEv, r.now()
 			if goal(r) {
-				return
+				r.mu.Lock()
+				stopped := r.stopped
+				r.mu.Unlock()
+				if stopped == "" { // (a stop issued while the goal was being evaluated gets its time)
+					return
+				}
 			}
 		}
 		r.mu.Lock()
